@@ -286,6 +286,8 @@ def run(ctx, tasks=None):
     # (runs before _init_worker limits the address space of this process: the Lean driver needs its thread stacks)
     if tasks is not None and len(tasks) > 1:
         try:
+            import flacblocks_tie
+            flacblocks_tie.run(ctx)
             import mp4file_tie
             mp4file_tie.run(ctx, report=True)
         except ImportError as e:
